@@ -47,7 +47,6 @@ func DefaultGenCfg() GenCfg {
 var BigLiterals = []string{"9223372036854775807", "9223372036854775808", "18446744073709551616", "100000000000000000000", "9007199254740993",
 	"0.000000000000000000001", "123456789012345678901234567890.5", "1" + strings.Repeat("0", 400), "0." + strings.Repeat("0", 400) + "1", "00000000000000000000001"}
 
-
 type ExprGen struct {
 	R   *Rng
 	Cfg GenCfg
@@ -319,6 +318,10 @@ func (g *ExprGen) testFor(ax string, j int) Test {
 		principal := (d.Kinds[j] == KAttr) == (ax == "attribute") && ax != "namespace"
 		if !principal || r.Chance(1, 5) {
 			return Test{Kind: "node"}
+		}
+		if strings.TrimSpace(loc) != loc || loc == "" {
+			// a name no name test can spell (white space around it: JSON keys, padded names)
+			return Pick(r, []Test{{Kind: "any"}, {Kind: "node"}})
 		}
 		if uri == "" {
 			return Pick(r, []Test{{Kind: "name", A: loc}, {Kind: "name", A: loc}, {Kind: "any"}, {Kind: "localany", A: loc}})
